@@ -1145,6 +1145,14 @@ mod hs {
 		if let Some(r) = loc.strip_prefix("/repo/") {
 			return r.to_string();
 		}
+		// the repository checked out elsewhere (background runs against a snapshot of /repo)
+		for c in ["core", "chain", "store", "pool", "p2p", "keychain", "util"].iter() {
+			if let Some(i) = loc.find(&format!("/{}/src/", c)) {
+				if !loc.contains("/registry/") {
+					return loc[i + 1..].to_string();
+				}
+			}
+		}
 		if loc.starts_with("/rustc/") || loc.contains("/library/") {
 			let f = loc.rsplit('/').next().unwrap_or(loc);
 			let f = f.split(':').next().unwrap_or(f);
